@@ -303,6 +303,8 @@ impl Tally {
 
 pub struct Env {
     pub verif_dir: PathBuf,
+    /// where evidence/ and replays/ are written (differs from verif_dir when a scratch tree is checked)
+    pub out_dir: PathBuf,
     pub seed: u64,
     pub jobs: usize,
 }
@@ -312,7 +314,8 @@ impl Env {
         let verif_dir = PathBuf::from(std::env::var("VERIF_DIR").unwrap_or_else(|_| "/verif".into()));
         let seed = std::env::var("VERIF_SEED").ok().and_then(|s| s.trim().parse::<i128>().ok()).unwrap_or(0);
         let jobs = std::env::var("VERIF_JOBS").ok().and_then(|s| s.parse().ok()).unwrap_or(16usize).max(1);
-        Env { verif_dir, seed: seed as u64, jobs }
+        let out_dir = std::env::var("VERIF_OUT_DIR").map(PathBuf::from).unwrap_or_else(|_| verif_dir.clone());
+        Env { verif_dir, out_dir, seed: seed as u64, jobs }
     }
 }
 
@@ -377,7 +380,7 @@ fn write_replay<P: Property>(env: &Env, tier: Tier, found: &Found<P::Case>) -> P
     let text = serde_json::to_string_pretty(&v).unwrap();
     let mut h = std::collections::hash_map::DefaultHasher::new();
     text.hash(&mut h);
-    let dir = env.verif_dir.join("replays");
+    let dir = env.out_dir.join("replays");
     let _ = std::fs::create_dir_all(&dir);
     let path = dir.join(format!("{}-{:016x}.json", P::ID, h.finish()));
     let _ = std::fs::write(&path, text);
@@ -653,7 +656,7 @@ pub fn run_property<P: Property>(prop: &P, tier: Tier, env: &Env) -> i32 {
         "wall_s": wall,
         "violations": violations,
     });
-    let evdir = env.verif_dir.join("evidence");
+    let evdir = env.out_dir.join("evidence");
     let _ = std::fs::create_dir_all(&evdir);
     if let Err(e) = std::fs::write(evdir.join(format!("{}.json", P::ID)), serde_json::to_string_pretty(&ev).unwrap()) {
         eprintln!("harness error: cannot write evidence: {e}");
